@@ -280,3 +280,20 @@ package main
 //@ prop C20
 //@ at call StorePointer assert[only-a-completely-read-file-is-published] ret1(ReadAll) == nil
 //@ ensures[read-error-keeps-old-contents] called(ReadAll) && ret1(ReadAll) != nil ==> !called(StorePointer)
+
+// ---------------------------------------------------------------- C01: wiring of the session loaders and handlers
+//@ func buildSessionChain
+//@ prop C01 C12
+//@ ensures[stored-session-loader-always-last] called(NewStoredSessionLoader)
+//@ ensures[bearer-loader-only-when-enabled] called(NewJwtSessionLoader) <==> opts.SkipJwtBearerTokens
+//@ ensures[basic-loader-only-with-a-validator] called(NewBasicAuthSessionLoader) <==> validator != nil
+//@ at call NewBasicAuthSessionLoader assert[basic-loader-uses-the-htpasswd-validator] arg(NewBasicAuthSessionLoader, 0) == validator
+//@ at call NewStoredSessionLoader assert[store-refresh-validate-from-this-proxy] arg(NewStoredSessionLoader, 0).SessionStore == sessionStore
+//@     && arg(NewStoredSessionLoader, 0).RefreshPeriod == opts.Cookie.Refresh
+
+// every handler that consults getAuthenticatedSession is registered behind the session chain, and only there
+//@ prop C01
+//@ scan[proxy-handler-behind-session-chain] method-value-wrapped (*OAuthProxy).Proxy ThenFunc sessionChain main.(*OAuthProxy).buildServeMux
+//@ scan[authonly-handler-behind-session-chain] method-value-wrapped (*OAuthProxy).AuthOnly ThenFunc sessionChain main.(*OAuthProxy).buildServeMux
+//@ scan[userinfo-handler-behind-session-chain] method-value-wrapped (*OAuthProxy).UserInfo ThenFunc sessionChain main.(*OAuthProxy).buildProxySubrouter
+//@ scan[signout-handler-behind-session-chain] method-value-wrapped (*OAuthProxy).SignOut ThenFunc sessionChain main.(*OAuthProxy).buildProxySubrouter
